@@ -5,7 +5,7 @@
 (* PersistentSlabStorage.                                                     *)
 EXTENDS SlabStorage, Json
 
-CONSTANTS NIds, EmitEdges
+CONSTANTS NIds, EmitEdges, EmitOneIn
 VARIABLE hist
 
 MCIds == 1..NIds
@@ -15,7 +15,8 @@ MCIndex == [i \in MCIds |-> IF i = 2 THEN 2 ELSE 1]
 MCSizeOf(v) == IF v > 0 THEN 10 + v ELSE 0
 
 Op(o, i, v, c, S, m) == [op |-> o, id |-> i, v |-> v, c |-> c, s |-> S, mode |-> m, fail |-> 0]
-Emit(h) == IF EmitEdges THEN PrintT(ToJson(h)) ELSE TRUE
+\* EmitOneIn > 1: print only a random sample of the explored transitions (the value of the conjunct is TRUE either way)
+Emit(h) == IF EmitEdges /\ (EmitOneIn <= 1 \/ RandomElement(1..EmitOneIn) = 1) THEN PrintT(ToJson(h)) ELSE TRUE
 Step(o) == hist' = Append(hist, o) /\ Emit(hist')
 SetSeq(S) == LET RECURSIVE F(_) 
                  F(T) == IF T = {} THEN <<>> ELSE LET x == CHOOSE y \in T : \A z \in T : y <= z IN <<x>> \o F(T \ {x})
